@@ -9,6 +9,8 @@ pathfinders ends with.
   optimize_greedy(...)   the search phase of the greedy finders: whatever the scores are, every step it
                          records goes through contract_nodes with two different nodes that are live at
                          that moment (call-site obligation), ids stay fresh, a live node remains
+  simplify_scalars()     collects different live scalar nodes (and the smallest other node) and folds them left
+                         to right: every step joins two different live nodes
   neighbors(i)           never yields i itself (what optimize_greedy relies on for 'different')
   optimize_remaining_by_size()
                          from ANY state with at least one live node ends with exactly
@@ -315,7 +317,40 @@ neighbors = Contract(
     # the node itself is never among its neighbours (what optimize_greedy relies on)
     ensures=["forall(0, len(result), lambda q: result[q] != i)"],
 )
-CONTRACTS = [pop_node, add_node, contract_nodes, remaining, greedy, neighbors]
+# ------------------------------------------------------------ simplify_scalars
+SC = "scalars"
+SC_DISTINCT = f"forall(0, len({SC}), lambda a: forall(0, len({SC}), lambda b: implies(a != b, {SC}[a] != {SC}[b])))"
+scalars = Contract(
+    target="cotengra.pathfinders.path_basic:ContractionProcessor.simplify_scalars",
+    props=["C05"],
+    self_type=ProcT,
+    params={},
+    requires=[FRESH],
+    returns=Ty.NoneT,
+    modifies=["self.nodes", "self.edges", "self.ssa", "self.ssa_path", "self.flops"],
+    hints={SC: Ty.List(Int), "j": Ty.Opt(Int), "jndim": Ty.Opt(Int), "i": Int, "legs": LegsL, "ndim": Int, "p": Int, "k": Int},
+    nloops=2,
+    loops={
+        # collecting: the scalars found so far are different live nodes without legs; the node to multiply into has legs
+        0: Loop(seen="S", inv=[
+            f"forall(0, len({SC}), lambda a: {SC}[a] in self.nodes and len(self.nodes[{SC}[a]]) == 0)",
+            SC_DISTINCT,
+            f"forall(0, len({SC}), lambda a: {SC}[a] in S)",
+            "implies(j is not None, unopt(j) in self.nodes and len(self.nodes[unopt(j)]) > 0 and jndim is not None)",
+        ]),
+        # contracting left to right: the entries from p on are different live nodes
+        1: Loop(pos="t", inv=[
+            FRESH,
+            f"len({SC}) == at_entry(len({SC}))",
+            f"forall(t, len({SC}), lambda a: {SC}[a] in self.nodes)",
+            f"forall(t, len({SC}), lambda a: forall(t, len({SC}), lambda b: implies(a != b, {SC}[a] != {SC}[b])))",
+            "self.appearances == old(self.appearances) and self.sizes == old(self.sizes)",
+        ]),
+    },
+    # ids stay fresh; every step recorded went through contract_nodes with two different live nodes (call-site obligations)
+    ensures=[FRESH, "self.appearances == old(self.appearances) and self.sizes == old(self.sizes)"],
+)
+CONTRACTS = [pop_node, add_node, contract_nodes, remaining, greedy, neighbors, scalars]
 
 
 # ------------------------------------------------------------ native side
@@ -383,6 +418,23 @@ def _gen_neighbors(rng):
 
 
 pop_node.gen, add_node.gen, contract_nodes.gen, remaining.gen = _gen_pop, _gen_add, _gen_contract, _gen_remaining
-greedy.gen, neighbors.gen = _gen_greedy, _gen_neighbors
+def _gen_scalars(rng):
+    import cotengra as ctg  # noqa: F401
+    from cotengra.pathfinders.path_basic import ContractionProcessor
+
+    # networks with several scalars (tensors without indices) next to ordinary tensors
+    pool = "abcd"
+    n = rng.randint(1, 6)
+    inputs = [tuple(rng.choice(pool) for _ in range(rng.choice([0, 0, 1, 2, 3]))) for _ in range(n)]
+    used = sorted({ix for t in inputs for ix in t})
+    output = tuple(rng.sample(used, rng.randint(0, min(2, len(used)))))
+    sd = {ix: rng.randint(2, 3) for ix in used}
+    cp = ContractionProcessor(inputs, output, sd)
+    return {"self": cp, "args": (), "describe": f"inputs={inputs} output={output}"}
+
+
+greedy.gen, neighbors.gen, scalars.gen = _gen_greedy, _gen_neighbors, _gen_scalars
+# afterwards no scalar is left unless everything was a scalar (then exactly one node is left)
+scalars.ensures_rt = ["all(len(legs) > 0 for legs in self.nodes.values()) or len(self.nodes) == 1"]
 for _c in CONTRACTS:
     _c.pre_must_hold = True  # states built through the class's own methods
